@@ -21,6 +21,8 @@ RULE = (
     "latitude range and every pixel inside the tile by signed great-circle distance; (d) transposition guard (pixel (0,255) nearest UR, "
     "(255,0) nearest LL). Thorough also runs the workload against an ASan+UBSan rebuild of the extension (diagnostics). "
     "Non-trivial: every tile (65536 pixels compared); distinct by tile position and coordinate system."
+    " Also: tiles taken from two enumerations advanced in lockstep; grids handed to samplers through the library's own box filter; the "
+    'position reported for pixels next to the tile borders is looked up again (same tile, within 2 px).'
 )
 ASSUMPTIONS = ["reference TOAST subdivision follows the documentation", "compiled extension as built; .pyx coherent with .c"]
 EXHAUSTIVE = {"quick": "all 84 tiles to depth 3 in both coordinate systems, all pixels", "thorough": "all 1364 tiles to depth 5 in both coordinate systems, all pixels"}
